@@ -596,3 +596,17 @@ def refsolve(spec, ph="", iters=4000, damp=0.6, tol=1e-13):
                     continue
                 maxdrop = max(maxdrop, (vin - abs(v[n])) / vin)
     return v, i, io, conv, maxdrop
+
+
+def move_leaf(s, spec, leaf, newparent):
+    """delete the leaf `leaf` and add a component of the same name under `newparent` (same node / edge counts, freed index re-used);
+    returns the spec of the edited structure (the moved leaf last)."""
+    sp = copy.deepcopy(spec)
+    lc = [c for c in sp["comps"] if c["n"] == leaf][0]
+    s.del_comp(leaf)
+    s.add_comp(newparent, comp=make_comp(lc), group=lc.get("g", ""))
+    if lc.get("pc") is not None and sp.get("phases"):
+        s.set_comp_phases(leaf, copy.deepcopy(lc["pc"]))
+    lc["p"] = [newparent]
+    sp["comps"] = [c for c in sp["comps"] if c["n"] != leaf] + [lc]
+    return sp
